@@ -245,6 +245,18 @@ pub fn observe(m: &mut Mdl, c: &Call, r: &mut Rules, w: usize) {
                         }
                     }
                 }
+            } else if pre.st == St::Connecting && matches!(k, Tk::PingreqSend) && pre.as_client {
+                // the PINGREQ timer armed by the CONNECT expires before the CONNACK: nothing can be pinged yet,
+                // but the keep alive must survive - the timer is armed again (otherwise the connected client has
+                // an interval in force and no timer until it happens to send something)
+                let d = expected_pingreq_interval(&pre);
+                if d > 0 {
+                    r.label("c15.expiry-pingreq-send-while-connecting");
+                    let rearmed = c.evs.iter().any(|e| matches!(e, Ev::TimerReset(Tk::PingreqSend, _))) || c.sends().iter().any(|a| matches!(a, AP::Pingreq { .. }));
+                    if !rearmed {
+                        r.viol("c15.pingreq-send-lost-connecting", &pre, format!("PingreqSend expired while the CONNACK is outstanding (interval in force {d} ms): the timer is neither armed again nor a PINGREQ sent - the keep alive is lost: {}", c.describe()));
+                    }
+                }
             } else if pre.st == St::Connecting && !matches!(k, Tk::PingreqSend) {
                 // a keep-alive timeout before the CONNACK: no DISCONNECT can be sent yet, but the expiry must
                 // still end the connection attempt in both protocol versions
